@@ -967,6 +967,7 @@ func (p *balloons) fillableBalloonInstances(blnDef *BalloonDef, fm FillMethod, c
 			}
 		}
 		undoFuncs = append(undoFuncs, func() {
+			p.forgetCpuClass(newBln)
 			p.freeCpus = p.freeCpus.Union(newBln.Cpus)
 		})
 		if newBln.MaxAvailMilliCpus(p.freeCpus) < reqMilliCpus {
